@@ -2,6 +2,7 @@
 # usage: multiseed.sh "<ids>" "<seeds>" — run quick checks of several properties under several seeds
 HERE="$(cd "$(dirname "$0")/.." && pwd)"
 BIN="$HERE/sim/target/release/mfisim"
+mkdir -p /tmp/mfisim_multiseed; cp "$HERE/known_findings.json" /tmp/mfisim_multiseed/ 2>/dev/null
 rc=0
 for s in $2; do
   for p in $1; do
